@@ -12,8 +12,12 @@ import (
 	"github.com/reactivego/ivg"
 	"github.com/reactivego/ivg/decode"
 	"github.com/reactivego/ivg/encode"
+	"github.com/reactivego/ivg/generate"
+	"github.com/reactivego/ivg/mdicons"
+	"github.com/reactivego/ivg/raster"
 	"github.com/reactivego/ivg/raster/vec"
 	"github.com/reactivego/ivg/render"
+	"golang.org/x/image/math/f32"
 
 	"verif/sim/report"
 	"verif/sim/sched"
@@ -228,7 +232,7 @@ func c18MakeTask(t *tape.Tape, p *c18Pool) c18Task {
 	if logged {
 		suffix += " via DestinationLogger"
 	}
-	switch t.Pick(4, 2, 4, 3, 1, 2, 3, 3, 2, 1) {
+	switch t.Pick(4, 2, 4, 3, 1, 2, 3, 3, 2, 1, 2, 2, 1, 1) {
 	case 0:
 		return c18Task{"decode->Renderer->recording rasteriser" + suffix, func() string {
 			z := &world.RecRaster{}
@@ -329,6 +333,49 @@ func c18MakeTask(t *tape.Tape, p *c18Pool) c18Task {
 				h = fnvAdd(h, fnv([]byte(c.String())))
 			}
 			return fmt.Sprintf("digest %016x", h)
+		}}
+	case 10:
+		// Generator with a transform stack over a shared path string
+		d := world.GenPathData(t, true)
+		sx, tx := float32(1+t.Intn(4)), float32(t.Range(-32, 32))
+		hi := t.Bool()
+		return c18Task{"Generator.SetTransform + SetPathData -> Encoder", func() string {
+			var e encode.Encoder
+			e.Reset(ivg.DefaultViewBox, ivg.DefaultPalette)
+			e.HighResolutionCoordinates = hi
+			var g generate.Generator
+			g.SetDestination(wrap(&e))
+			g.SetTransform(generate.Scale(sx), generate.Translate(tx, -tx))
+			err := g.SetPathData(d, 0)
+			b, berr := e.Bytes()
+			return fmt.Sprintf("err=%s bytes-err=%s %d bytes %016x", errText(err), errText(berr), len(b), fnv(b))
+		}}
+	case 11:
+		// the Material Design converter's path front end, with its own adjs map
+		d := world.GenPathData(t, false)
+		op := float32(t.Intn(5)) / 4
+		circles := []mdicons.Circle{{Cx: 24, Cy: 24, R: float32(1 + t.Intn(8))}}
+		return c18Task{"mdicons.ParsePath (opacity blend, circles) -> Encoder", func() string {
+			var e encode.Encoder
+			e.Reset(ivg.ViewBox{MinX: -24, MinY: -24, MaxX: 24, MaxY: 24}, ivg.DefaultPalette)
+			adjs := map[float32]uint8{}
+			path := &mdicons.Path{D: d, Opacity: &op}
+			err := mdicons.ParsePath(wrap(&e), path, adjs, 48, f32.Vec2{0, 0}, 48, circles)
+			b, berr := e.Bytes()
+			return fmt.Sprintf("err=%s bytes-err=%s %d bytes %016x adjs=%d", errText(err), errText(berr), len(b), fnv(b), len(adjs))
+		}}
+	case 12:
+		return c18Task{"decode -> DestinationLogger without a destination" + suffix, func() string {
+			err := decode.Decode(&ivg.DestinationLogger{Alt: true}, src)
+			return "err=" + errText(err)
+		}}
+	case 13:
+		return c18Task{"decode->Renderer->RasterizerLogger->recording rasteriser" + suffix, func() string {
+			z := &world.RecRaster{}
+			var r render.Renderer
+			r.SetRasterizer(&raster.RasterizerLogger{Rasterizer: z}, rect)
+			err := decode.Decode(&r, src)
+			return digestRast(z.Ops, err)
 		}}
 	default:
 		vbs := []ivg.ViewBox{ivg.DefaultViewBox, {MinX: 0, MinY: 0, MaxX: 48, MaxY: 24}}
@@ -534,6 +581,19 @@ func c18Run(ctx *Ctx, t *tape.Tape) *report.Violation {
 	}
 	ctx.Fold(fnvAdd(stt.Hash, uint64(stt.Steps)))
 	if st != nil {
+		for i := range tasks {
+			name := tasks[i].name
+			if j := strings.Index(name, " file#"); j >= 0 {
+				name = name[:j]
+			}
+			if j := strings.Index(name, "vec.Rasterizer"); j >= 0 {
+				name = name[:j+len("vec.Rasterizer")]
+			}
+			st.Add("taskkind_"+name, 1)
+			if strings.HasPrefix(solo[i], "panic:") {
+				st.Add("taskpanic_"+name, 1)
+			}
+		}
 		st.Add("evaluations", 1)
 		st.Add("statement_steps", int64(stt.Steps))
 		st.Add("preemptions", int64(len(stt.Switches)))
@@ -608,11 +668,13 @@ func init() {
 			return Evidence{
 				Rule: "A case is a set of 2-6 independent pipelines (decode->Renderer->recording rasteriser or real vec.Rasterizer, decode->Encoder->Bytes, Disassemble, DecodeViewBox, decode with WithPalette/WithColorAt, generated programs with Generator helpers and path-data front ends -> Encoder or Renderer, colour and viewBox helpers; some behind DestinationLogger; some reading faulted files that end in an error) over a pool of 2-4 shared inputs (the same backing arrays: source bytes, palettes, gradient stops) and the package defaults, plus a schedule. The library under test is a scratch copy with a yield inserted before every statement; exactly one task runs at a time and the tape decides every preemption and every choice of next task (PCT-style: 0-8 change points over the measured step count, or chaos: preempt with probability 1/50, 1/300 or 1/2000 per statement). Oracles: every task's result equals its result when run alone (solo runs are made twice and must agree); the direct bytes of every package-level variable and the hash of every shared input are compared after every scheduling slice (every 16th after the first 64), a deep reflective hash of every package-level variable before and after. distinct_nontrivial = hash-bitmap count of distinct (task, site) preemption sequences with at least one preemption that landed while two or more tasks were inside library code.",
 				Extra: map[string]interface{}{
-					"fault_kinds_fired":               "schedule faults only: preemptions (below); some tasks read storage-faulted files",
-					"statement_steps":                 s.Counters["statement_steps"],
-					"preemptions":                     s.Counters["preemptions"],
-					"scheduling_slices":               s.Counters["slices"],
-					"tasks_run":                       s.Counters["tasks"],
+					"fault_kinds_fired": "schedule faults only: preemptions (below); some tasks read storage-faulted files",
+					"statement_steps":   s.Counters["statement_steps"],
+					"preemptions":       s.Counters["preemptions"],
+					"scheduling_slices": s.Counters["slices"],
+					"tasks_run":         s.Counters["tasks"],
+					"task_kinds":        s.SortedCounters("taskkind_"),
+					"tasks_whose_solo_run_panicked_(harness health; the panic must then repeat under every schedule)": s.SortedCounters("taskpanic_"),
 					"policies":                        map[string]int64{"pct": s.Counters["policy_pct"], "chaos": s.Counters["policy_chaos"]},
 					"preemptions_by_package":          s.SortedCounters("preempt_in_"),
 					"yield_sites_in_the_copy":         sites,
